@@ -25,7 +25,8 @@ RULE = ('generated object classes (type()/exec): 1-3 interfaces declared on a ba
         'exported class declares: the exported class\'s own declaration is in force. A third of the '
         'objects reach IDBusObject only through a registered adapter. A quarter of the implementations are coroutines (async def); '
         'a third of the pending Deferred outcomes see ANOTHER object exported at the path before they fire. Some decorated base-class '
-        'methods are overridden in the exported subclass without the decorator: the override runs.')
+        'methods are overridden in the exported subclass without the decorator: the override runs. Exceptions may be unprintable; '
+        'methods that ask for dbusCaller may have a defaulted parameter of their own in front of it.')
 ASSUMPTIONS = ['a call without interface may run any implementation bound to that member whose interface signature matches, '
                'or be refused InvalidArgs if some interface declaring the member has another signature',
                'every declared (interface, member) has exactly one binding; members sharing a name across interfaces all '
@@ -115,6 +116,12 @@ def _build(case):
                     src = 'def %s(self, *args, **kw):\n    return self._verif_call(%r, args, kw.get("dbusCaller"))\n' % (pyname, impl_id)
                     src = ('def %s(self%s, dbusCaller=None):\n    return self._verif_call(%r, %s, dbusCaller)\n'
                            % (pyname, params, impl_id, argt))
+                    if nargs % 2:
+                        # a parameter of the Python method that the wire signature knows nothing about (it keeps its
+                        # default) stands between the DBus arguments and dbusCaller
+                        src = ('def %s(self%s, _step=10, dbusCaller=None):\n    return self._verif_call(%r, %s, '
+                               'dbusCaller if _step == 10 else ("<_step clobbered>", _step, dbusCaller))\n'
+                               % (pyname, params, impl_id, argt))
                 else:
                     src = 'def %s(self%s):\n    return self._verif_call(%r, %s, "<not asked>")\n' % (
                         pyname, params, impl_id, argt)
@@ -214,6 +221,10 @@ def _exc_class(kind):
         return type('BadName', (Exception,), {'dbusErrorName': 'not a valid name'})
     if kind == 'badname-format':
         return type('BadName', (Exception,), {'dbusErrorName': 'org.verif.Error.%s%d%'})
+    if kind == 'unprintable':
+        # an exception that cannot even say what it is: __str__ returns no string (txdbus.bus.DError built without a
+        # message does just that); the caller is owed its one error reply all the same
+        return type('Unprintable', (Exception,), {'__str__': lambda self: None})
     if kind == 'nonascii':
         return type('Fehleré', (Exception,), {})
     if kind == 'none-name':
@@ -235,7 +246,7 @@ class _Holder:
 def _expected_error_name(kind):
     return {'plain': 'org.txdbus.PythonException.VerifFailure', 'named': 'org.verif.Error.Named',
             'badname': 'org.txdbus.InvalidErrorName', 'badname-format': 'org.txdbus.InvalidErrorName', 'nonascii': 'org.txdbus.InvalidErrorName',
-            'none-name': 'org.txdbus.PythonException.NoneName', 'nested': 'org.txdbus.PythonException.NestedFailure',
+            'none-name': 'org.txdbus.PythonException.NoneName', 'unprintable': 'org.txdbus.PythonException.Unprintable', 'nested': 'org.txdbus.PythonException.NestedFailure',
             'local': 'org.txdbus.PythonException.LocalFailure'}[kind]
 
 
@@ -468,7 +479,9 @@ def run_case(case):
                         where, want, d['fields'].get(4))))
                 text = TEXTS[outc['text']]
                 got = d['body'][0] if d['body'] and d['body_sig'].startswith('s') else None
-                if outc['text'] in ('nul', 'surrogate'):
+                if outc['exc'] == 'unprintable':
+                    pass        # what text stands in for an exception that has none is not asserted
+                elif outc['text'] in ('nul', 'surrogate'):
                     if got is None:
                         out.append(Disc('error.text-missing', '%s: %r' % (where, d['body'])))
                 elif want == 'org.txdbus.InvalidErrorName':
@@ -634,7 +647,7 @@ def gen_case(draw, tier):
         outc['coro'] = draw(st.integers(0, 3)) == 0
         outc['reexport'] = kind in ('deferred', 'deferred-fail') and draw(st.integers(0, 2)) == 0
         if kind in ('raise', 'deferred-fail'):
-            outc['exc'] = draw(st.sampled_from(['plain', 'plain', 'named', 'badname', 'badname-format', 'nonascii', 'none-name', 'nested', 'local']))
+            outc['exc'] = draw(st.sampled_from(['plain', 'plain', 'named', 'badname', 'badname-format', 'nonascii', 'none-name', 'nested', 'local', 'unprintable']))
             outc['text'] = draw(st.sampled_from(['plain', 'plain', 'empty', 'unicode', 'nul', 'surrogate', 'format']))
         call['outcome'] = outc
         calls.append(call)
